@@ -93,6 +93,11 @@ def model : Suite where
     | ["spawn", "reg", a] => match a.toNat? with
         | some a => spawn { o with addrs := insSorted o.addrs a } (.rCall a)
         | none => (o, "bad-op")
+    | ["spawn", "reg", a, r] => match a.toNat?, r.toNat? with
+        -- registering through a reference object that lookups also use: `Register` never touches the
+        -- reference's cache, so the step is the same as `reg a`; the reference is listed in the cache line
+        | some a, some r => spawn { o with addrs := insSorted o.addrs a, refs := insRef o.refs ⟨a, r⟩ } (.rCall a)
+        | _, _ => (o, "bad-op")
     | ["spawn", "unreg", a] => match a.toNat? with
         | some a => spawn { o with addrs := insSorted o.addrs a } (.uCall a)
         | none => (o, "bad-op")
